@@ -3,26 +3,35 @@ import RsMatterVerif.Lemmas.SecureMsg
 # C03 — secured messages are accepted only if authentic for that session and direction
 
 Theorems over `Model/SecureMsg` (ideal AEAD: the table `Aead` of `Enc key nonce aad pt` terms with
-their wire bytes; `dec` opens a cipher text only as the term it stands for).
+their wire bytes; `dec` opens a cipher text only as the term it stands for). **Authentic** is, here
+and in `Props/C03Ext.lean`, the ideal-AEAD notion (`AuthenticFor`, `GroupAuthentic`): bit-identical to
+the wire form of an encryption that was really made under the key in question, with the complete
+header as associated data — no computational claim.
 
 * `roundtrip` — what `s.encode` produces, the mirrored session decodes to the identical header
   (every field) and payload, for every well-formed header shape and every payload (over TCP / BTP
-  the R and A flags are lowered on receipt, `adjust_reliability`; `roundtrip_udp`, `roundtrip_reliable`).
+  the R and A flags are lowered on receipt, `adjust_reliability`; `roundtrip_udp`, `roundtrip_reliable`;
+  unsecured sessions and first group messages: `C03Ext`).
 * `accept_only_authentic`, `handed_on_only_if_authentic` — a datagram reaches `post_recv` / an
-  exchange of a secure session only if it is `AuthenticFor` that session.
+  exchange of a secure session only if it is `AuthenticFor` that session (the converse:
+  `C03Ext.authentic_is_decoded`, `decoded_iff_authentic`, `authentic_is_handed_on`).
 * `accepted_was_encoded_for_me`, `aad_covers_header`.
-* Group receive (`get_or_create_for_group_rx`): `group_accept_only_authentic`,
-  `group_handed_on_only_if_authentic` — a group message for which no session exists is handed on only
-  if it is `GroupAuthentic` under a key that is `GroupKeyFor` the addressed group of a fabric, with
-  the header's source node id in the nonce; `group_transplant_rejected` — another key, another
-  header, another source node ⇒ not accepted; `opKey_injective` — another group's / fabric's key is
-  another key; `group_session_bound`; `gstore_only_if_group_authentic`, `reject_preserves_state` —
-  a rejected datagram touches neither the counter store nor any session.
+* Group receive (`get_or_create_for_group_rx`): `group_accept_only_authentic` (and the third
+  alternative of `handed_on_only_if_authentic`) — a group message for which no session exists is
+  handed on only if it is `GroupAuthentic` under a key that is `GroupKeyFor` the addressed group of a
+  fabric, with the header's source node id in the nonce; `group_transplant_rejected` — another key,
+  another header, another source node ⇒ not accepted; `opKey_injective` — another group's / fabric's
+  key is another key; `group_session_bound`; `gstore_only_if_group_authentic`.
+* `reject_preserves_state` — restates the model's factoring (`decode_packet` returns before
+  `post_recv` on every early error): a datagram rejected *before* `post_recv` touches neither the
+  counter store nor any session. What an *authentic* message that `post_recv` refuses leaves behind
+  (the receive window has moved) is `C03Ext.postRecv_error_state` / `rejected_session_effect`.
 * `handle_rx_packet`: `handleRx_rejected` — after a datagram that `decode_packet` rejected before
   `post_recv`, table and counter store are unchanged, nothing is handed on, and at most one unsecured
   `SessionNotFound` report is sent; `inauthentic_is_rejected` — a secured datagram that is authentic
-  for no session and no group key is such a datagram.
-* `inauthentic_preserves_session`, `receive_keeps_keys`, `duplicate_preserves_state`.
+  for no session and no group key is such a datagram; `C03_rx_full_holds` — per session, whole step.
+* `inauthentic_preserves_session`, `receive_keeps_keys`; `duplicate_preserves_state` (an unfolding of
+  the `Duplicate` branch of `post_recv`).
 -/
 namespace C03
 open SecureMsg
@@ -221,7 +230,7 @@ theorem accept_only_authentic {E : Env} {n : Node} {from_ : Addr} {idx : Nat} {d
   unfold Session.decodeRemaining Session.getDecKey at hrem
   simp only [hr, if_true] at hrem
   obtain ⟨rec, hm, hk, hn, ha, hc, _⟩ := decodeRemaining_key_inv hrem
-  exact ⟨rec, hm, h.plain, hk, ha, by rw [ha, hc]; exact hdg, hn⟩
+  exact ⟨rec, hm, h.plain, hwf, hk, ha, by rw [ha, hc]; exact hdg, hn⟩
 
 /-- a table filled by `Session.encode` calls of the sessions `S` only -/
 def ProducedBy (t : Aead) (S : List Session) : Prop :=
@@ -452,10 +461,10 @@ theorem group_accept_only_authentic {E : Env} {n : Node} {from_ : Addr} {c : Can
     {h : PacketHdr} (hb : BytesOK dg) (hd : decodeStage E n from_ dg = .groupNew c h p) :
     ∃ f src, GroupKeyFor E.fabs h.plain f c.gid c.key ∧ c.fabIdx = f.fabIdx ∧ c.nodeId = f.nodeId ∧
       E.gsid c.key = h.plain.sessId ∧ GroupAuthentic E.t c.key dg h.plain src := by
-  obtain ⟨rest, src, hdg, _, _, hgrp, hsrc, hc, hrem⟩ := groupNew_inv hb hd
+  obtain ⟨rest, src, hdg, hwf, _, hgrp, hsrc, hc, hrem⟩ := groupNew_inv hb hd
   obtain ⟨f, hk, h1, h2, h3⟩ := cand_spec hc
   obtain ⟨rec, hm, hkey, hn, ha, hct, _⟩ := decodeRemaining_key_inv hrem
-  exact ⟨f, src, hk, h1, h2, h3, hsrc, hgrp, rec, hm, hkey, ha, by rw [ha, hct]; exact hdg, hn⟩
+  exact ⟨f, src, hk, h1, h2, h3, hwf, hsrc, hgrp, rec, hm, hkey, ha, by rw [ha, hct]; exact hdg, hn⟩
 
 /-- **Transplants are rejected.** Take any encryption `rec0` that was really made and deliver its
 cipher text behind any header bytes. If the key of `rec0` is none of the keys the node holds for
